@@ -254,6 +254,15 @@ def main(argv):
             for t in tags:
                 if pid in tag_props(t):
                     obligations.setdefault(t, dict(status='discharged', unit=un, backend='verus/z3', lines=[]))['lines'].append(int(ln))
+        # every function that carries obligations of this property must appear in the verifier's own per-function report: an obligation is
+        # only `discharged` if the function it sits in was actually sent to the solver in this run
+        reported = {f['function'].split('::')[-1] for f in res.get('functions', [])}
+        for q, ov in meta['overlays'].items():
+            if ov['stub'] or q.split('::')[-1] in reported:
+                continue
+            if pid in ov.get('props', []) or any(t and pid in tag_props(t) for t, _ in ov['ensures']) \
+                    or any(pid in tag_props(t) for ln, ts in meta['tags'].items() for t in ts if fn_range(meta, q, int(ln))):
+                undecided.append('%s: %s carries %s obligations but is missing from the verifier\'s per-function report (not verified in this run)' % (un, q, pid))
         # implicit panic-freedom obligations
         for q, ov in meta['overlays'].items():
             if pid in ov.get('props', []) and not ov['stub']:
